@@ -136,6 +136,12 @@ pub fn show_cfg_error(reader: &MemReader, e: &CfgError) -> String {
             format!("labelsnotdefined [{}]", v.join(","))
         }
         CfgError::DuplicateLabel(l) => format!("duplicatelabel {}", enc_str(l.get().as_str())),
+        CfgError::LabelWithoutInstruction(l) => format!("labelwithoutinstruction {}", enc_str(l.get().as_str())),
+        CfgError::FunctionWithoutReturn(_, names) => {
+            let mut v: Vec<String> = names.split(", ").map(enc_str).collect();
+            v.sort();
+            format!("functionwithoutreturn [{}]", v.join(","))
+        }
         CfgError::UnexpectedError => "unexpectederror".to_string(),
         _ => "other".to_string(),
     };
